@@ -61,4 +61,12 @@ MUTANTS = [
     {"pid": "C34", "name": "redirect-drops-query", "edits": [(HC, "            qargs, query = httping.updateQargsQuery(qargs, query)\n\n            self.transmit(method=method, path=path, qargs=qargs, fragment=fragment)", "            self.transmit(method=method, path=path, qargs=qargs, fragment=fragment)")]},
     {"pid": "C34", "name": "redirects-not-cleared-or-carried", "edits": [(HC, "                            response['redirects'] = copy.copy(self.redirects)", "                            response['redirects'] = copy.copy(self.redirects[:1])")]},
     {"pid": "C34", "name": "redirect-same-host-new-port-not-reconnected", "edits": [(HC, "            if ha != self.connector.ha or scheme != self.requester.scheme:", "            if ha[0] != self.connector.ha[0] or scheme != self.requester.scheme:")]},
+    # C35
+    {"pid": "C35", "name": "gramstack-blocked-ends-pass", "edits": [(ST, "            return True  # only this destination is blocked so keep going with others", "            return False")]},
+    {"pid": "C35", "name": "gramstack-drop-failed-packet", "edits": [(ST, "                laters.append((pkt, ha))\n                blockeds.append(ha)", "                blockeds.append(ha)")]},
+    {"pid": "C35", "name": "gramstack-laters-to-front", "edits": [(ST, "            while laters:\n                self.txPkts.append(laters.popleft())\n\n    def serviceTxPktsOnce", "            while laters:\n                self.txPkts.appendleft(laters.popleft())\n\n    def serviceTxPktsOnce")]},
+    # C36
+    {"pid": "C36", "name": "clientstack-drops-unsent-rest", "edits": [(ST, "        if count < len(self.txbs):  # partially blocked try again later\n            del self.txbs[:count]  # delete sent portion\n            return False", "        if count < len(self.txbs):  # partially blocked try again later\n            self.clearTxbs()\n            return False")]},
+    {"pid": "C36", "name": "serverstack-rx-deletes-too-little", "edits": [(ST, "        del ix.rxbs[:packet.size]\n        self.rxPkts.append((packet, ca))  # queue packet", "        del ix.rxbs[:max(0, packet.size - 1)]\n        self.rxPkts.append((packet, ca))  # queue packet")]},
+    {"pid": "C36", "name": "serverstack-tx-to-first-ix", "edits": [(ST, "            self.handler.transmitIx(pkt.packed, ca)", "            self.handler.transmitIx(pkt.packed, self.handler.ixes.keys()[0])")]},
 ]
